@@ -650,7 +650,7 @@ func codecRule(what string) func(string) string {
 		if tier == "thorough" {
 			d = "depth 2 with the full token alphabet, depth 3 with minimal tokens, and the declared-length sweep (every declared length 0..255 / 0..2100 + 2^k±1 of every length-prefixed slot x exact/short/no content)"
 		}
-		return "grammar-state exploration over the pinned TS 24.501 tables: a state is (message, mandatory-part choice, sequence of optional-element tokens); a token is (slot | junk kind, declared length class, content pattern, availability); transitions append one token; " + d + "; from every state the rendered bytes and every new prefix are executed on the implementation through PlainNasDecode, Gmm/GsmMessageDecode and Decode<Msg>; plus 70 000-octet inputs; plus the remaining-length family (each length-prefixed element at its minimum, maximum and a small length, with the rest of the message — well-formed optional elements in table order — sized to every total in windows around 2^8, 2^9 and 2^16 octets" + map[bool]string{true: " and every total 0..600", false: ""}[tier == "thorough"] + ", before and after the element); plus the structured-content family (every variable-length element filled from a corpus of shapes that occur inside NAS elements: a complete instance of every message type, EAP packets with inner lengths around the element length, length-prefixed lists, every first octet); plus every value 0..255 of every mandatory one-octet element; the same with the library logger at its default level (everything else runs at trace level) (mandatory values and minimal optional tokens); plus the relation family (any two variable-length elements with equal lengths, one double the other, one longer by one, for base lengths 0..40, 100, 255, 256); plus the repetition family (the two smallest optional elements n = 1..40, 63..65, 127..129, 255..257, 1023..1025 times, followed by every reduced second token, every token of one variable-length element, and cut one octet short); plus the dependency-directed family (for every hand-written statement the static extraction finds in a decoder case that mentions other elements: those elements jointly, all orders, every length up to minimum+15, maximum and out-of-range neighbours, three content patterns; and the contents of the elements mentioned, also by hand-written statements of the mandatory part, through every string of up to five octets over {00,01,02,03,04,7F,80,FE,FF} jointly with 32 values of each one-octet mandatory element mentioned; empty when all decoders have the generated shape). " + what
+		return "grammar-state exploration over the pinned TS 24.501 tables: a state is (message, mandatory-part choice, sequence of optional-element tokens); a token is (slot | junk kind, declared length class, content pattern, availability); transitions append one token; " + d + "; from every state the rendered bytes and every new prefix are executed on the implementation through PlainNasDecode, Gmm/GsmMessageDecode and Decode<Msg>; plus 70 000-octet inputs; plus the remaining-length family (each length-prefixed element at its minimum, maximum and a small length, with the rest of the message — well-formed optional elements in table order — sized to every total in windows around 2^8, 2^9 and 2^16 octets" + map[bool]string{true: " and every total 0..600", false: ""}[tier == "thorough"] + ", before and after the element); plus the structured-content family (every variable-length element filled from a corpus of shapes that occur inside NAS elements: a complete instance of every message type, EAP packets with inner lengths around the element length, length-prefixed lists, every first octet; contents that look like the elements that may follow, for every length that is also an identifier of the message; mobile identities of every kind, protection scheme and scheme output length in the identity elements); plus the alignment family (an element ending at 4096 / 8192 ±3 octets — thorough 512 .. 65 536 — followed by every minimal element); plus the dense presence family (all optional elements except any 0, 1, 2 — thorough 3 — of them, every prefix and suffix of the list); plus whole unknown elements in TLV and TLV-E format; plus every value 0..255 of every mandatory one-octet element; the same with the library logger at its default level (everything else runs at trace level) (mandatory values and minimal optional tokens); plus the relation family (any two variable-length elements with equal lengths, one double the other, one longer by one, for base lengths 0..40, 100, 255, 256); plus the repetition family (the two smallest optional elements n = 1..40, 63..65, 127..129, 255..257, 1023..1025 times, followed by every reduced second token, every token of one variable-length element, and cut one octet short); plus the dependency-directed family (for every hand-written statement the static extraction finds in a decoder case that mentions other elements: those elements jointly, all orders, every length up to minimum+15, maximum and out-of-range neighbours, three content patterns; and the contents of the elements mentioned, also by hand-written statements of the mandatory part, through every string of up to five octets over {00,01,02,03,04,7F,80,FE,FF} jointly with 32 values of each one-octet mandatory element mentioned; empty when all decoders have the generated shape). " + what
 	}
 }
 
